@@ -38,6 +38,15 @@ CHECKS = [
          note='Trusted: the re-implementation of the documented table semantics (vf/oracles/valence_ref.py) and RDKit valence '
               'model as independent judge for common chemistry; consistent edits of exotic data tuples outside RDKit are a stated limit.',
          technique='exhaustive enumeration of centre states + property-based molecules against a table re-derivation and RDKit differential'),
+    dict(id='C06',
+         text='Exhaustive enumeration of labelled connected graphs (degree <= 4; n <= 6 complete and a rotating 5 % slice of n = 7 '
+              'in quick; n = 7 complete and n = 8 with <= 3 rings in thorough) plus generated ring assemblies, macrocycles, corpus '
+              'and curated polycycles under random renumbering with coordinate bonds added: ring count, simple cycles of '
+              'existing bonds, GF(2) independence, minimum total size against an independent minimum-cycle-basis computation, '
+              'and agreement of atom/bond ring marks, ring counts and components with the reported set.',
+         note='Trusted: vf/oracles/mcb.py (bridge/block finder, exhaustive simple-cycle enumeration, GF(2) elimination). The '
+              'recorded theta-type gap is excluded from the minimality clause by an independent structural predicate and counted.',
+         technique='exhaustive small-graph enumeration + property-based ring assemblies against an independent minimum cycle basis oracle'),
     dict(id='C18',
          text='Exhaustive enumeration of the finite domain (118 elements x all tabulated isotopes + unspecified x charge '
               '-4..+4 x radical): lookups against a literal standard table, table-key consistency, mass computability, '
